@@ -23,6 +23,11 @@ def select(t, c):
         return "C13|%s|%s" % (name, cls), "solve %d: %s (detail %s)" % (step, name, detail)
     if o["edit"] == "fresh-twin":
         return None
+    if step >= 2 and prop == "C05" and name == "orthogonality-of-declared-blocks-not-sent":
+        if not [x for x in t.get("_clauses", []) if x[0] == 1 and x[1] == "C05" and x[2] == name]:
+            return ("C13|declared-orthogonality-missing-after-edit",
+                    "solve %d does not send the orthogonality of %s pair(s) of blocks the partition handed out "
+                    "(the first solve of the model did send all of its pairs)" % (step, detail))
     if step >= 2 and prop == "C02":
         base = name.split(":")[0]
         if base.startswith("derived-") or base.startswith("held-object-has-no-value"):
